@@ -63,6 +63,10 @@ def run(prop, tier, seed):
         items = []
         for rep in range(1 if not big else 12):
             items += [concretise(rnd, cf) for cf in cfgs]
+        # extra: every numeric-leniency variant of the version prefix as VECTOR (the CLI must print the library's error, never crash)
+        for s in corpus.prefix_variants(rnd):
+            s = s.replace("\x00", "0")
+            items.append({"args": [esc(a) for a in rnd.choice([[], ["-3"], ["-4"], ["-j"]]) + ["-v", s]], "stdin": []})
         # extra: interactive entry with a very long run of rejected answers before the accepted ones
         for fl in ([], ["-2"], ["-3"], ["-4"]):
             items.append({"args": [esc(a) for a in fl], "stdin": [esc(a) for a in ["junk"] * 1300 + (UNIVERSAL * 40)[:400]]})
